@@ -107,10 +107,11 @@ pub fn closed_form<T: Arith>(rule: usize, x0: i64, x1: i64, y1: &T, x2: i64, y2:
 }
 
 pub const GAPS: [i64; 4] = [1, 30, 365, 3650];
-pub const VSETS: [[f64; 6]; 3] = [
+pub const VSETS: [[f64; 6]; 4] = [
     [1.0, 0.99, 0.95, 0.8, 0.5, 0.3],
     [1.0, 1.02, 0.97, 1.3, 0.6, 0.9],
     [0.97, 0.99, 0.93, 1.1, 0.7, 0.85],
+    [1.0, 1.0, 0.96, 0.96, 0.96, 0.9], // equal adjacent values (flat segments)
 ];
 pub fn t0() -> i64 {
     1_640_995_200 // 2022-01-01T00:00:00Z
